@@ -890,6 +890,9 @@ func (c *Context) Log10(d, x *Decimal) (Condition, error) {
 		return 0, err
 	}
 	res |= qr
+	// The product was computed in a context with the package's exponent
+	// limits; fit it to c's exponent range.
+	res |= c.round(d, d)
 	return c.goError(res)
 }
 
